@@ -161,6 +161,40 @@ def impl_body(fb, self_ty, name):
     return bs[0] if len(bs) == 1 else None
 
 
+def _strip_views(v):
+    v = rel.canon(v)
+    while isinstance(v, App) and v.args and (
+            (len(v.args) == 1 and (v.fn.endswith("::as_mut_slice") or v.fn.endswith("::as_slice") or v.fn in ("deref", "std::ops::Deref::deref", "std::ops::DerefMut::deref_mut")))
+            or (len(v.args) == 2 and v.fn in ("std::ops::IndexMut::index_mut", "std::ops::Index::index") and "RangeFull" in rel.cstr(v.args[1]))):
+        v = rel.canon(v.args[0])
+    while isinstance(v, App) and v.fn.startswith("mut:") and v.args:
+        v = rel.canon(v.args[0])
+    return v
+
+
+def _is_len_of(t, nums):
+    t = rel.canon(t)
+    return isinstance(t, App) and t.fn.endswith("::len") and len(t.args) == 1 and _strip_views(t.args[0]).key() == _strip_views(nums).key()
+
+
+def _words_for(trk, nums):
+    """tracker = from_elem(0, 1 + len(nums) / 64), for the very numbers handed to the reducer"""
+    trk = _strip_views(trk)
+    if not (isinstance(trk, App) and trk.fn.endswith("::from_elem") and len(trk.args) == 2 and rel.const_int(trk.args[0]) == 0):
+        return False
+    n = rel.canon(trk.args[1])
+    if not (isinstance(n, App) and n.fn == "binop:Add" and len(n.args) == 2):
+        return False
+    for a, b in (n.args, n.args[::-1]):
+        if rel.const_int(a) == 1 and isinstance(b, App) and b.fn == "binop:Div" and len(b.args) == 2:
+            d = rel.canon(b.args[1])
+            while isinstance(d, App) and d.fn.startswith("cast:") and d.args:
+                d = rel.canon(d.args[0])
+            if rel.const_int(d) == W and _is_len_of(b.args[0], nums):
+                return True
+    return False
+
+
 def run(ctx):
     chk, fb = ctx.check, ctx.fb
     chk.rule("R14.1", "reduction step: operator i on (operand at i - get_previous(i), operand at i + consume_next(i)), in this order, result stored left; position 0 returned")
@@ -484,16 +518,15 @@ def run(ctx):
                             return None
                         okc = False
                         for a, op, bb in F.rel:
-                            if "::len(" in rel.cstr(a) and rel.cstr(a).count("(") <= 3 and word_bits(bb) is not None:
+                            if _is_len_of(a, nums) and word_bits(bb) is not None:
                                 if (op == "<=" and word_bits(bb) <= W) or (op == "<" and word_bits(bb) <= W + 1):
                                     okc = True
                         if okc:
                             chk.ok("R14.3", "%s: one-word tracker only under len <= 64" % p_.split("::")[-1], "", loc(e[3]))
                         else:
                             chk.violation("R14.3", "capacity:%s" % p_, "%s evaluates with a one-word tracker without a dominating `number of operands <= 64` test" % p_, loc(e[3]))
-                    elif re.search(r"from_elem\(0_usize, binop:Add\(1_usize, binop:Div\(.*::len\(.*\), (usize:64|cast:IntToInt:usize\(u32:64\)|64_usize)\)\)\)", s_tr) or \
-                            re.search(r"from_elem\(0_usize, binop:Add\(binop:Div\(.*::len\(.*\), (usize:64|cast:IntToInt:usize\(u32:64\)|64_usize)\), 1_usize\)\)", s_tr):
-                        chk.ok("R14.3", "%s: 1 + len/64 zeroed words" % p_.split("::")[-1], "", loc(e[3]))
+                    elif _words_for(trk, nums):
+                        chk.ok("R14.3", "%s: 1 + len/64 zeroed words for the numbers that are reduced" % p_.split("::")[-1], "", loc(e[3]))
                     else:
                         chk.violation("R14.3", "capacity:%s" % p_, "%s: tracker %s is neither a guarded single zero word nor 1 + len/64 zeroed words" % (p_, s_tr[:120]), loc(e[3]))
     if ncall < 2:
